@@ -43,7 +43,7 @@ fn edges_of(ix: &Index, td: &std::path::Path) -> Vec<(usize, usize)> {
 fn vf_index_edges_and_closure() {
     let td = crate::core::testing::new_testdir().unwrap();
     let work = td.path();
-    let paths = ["app", "app2", "app-web", "app/sub", "lib", "lib2", "libs/", "libs/core"];
+    let paths = ["app", "app2", "app-web", "app/sub", "app/sub/deep", "lib", "lib2", "libs/", "libs/core"];
     for p in paths.iter() { std::fs::create_dir_all(work.join(p)).unwrap(); std::fs::write(work.join(p).join("f.txt"), b"x").unwrap(); }
     let uses_pool = ["lib", "lib2/src", "app/sub/file.txt", "app2", "app", "outside/x", "app-web/a", "libs/util.rs", "libs"];
     let (mut checked, mut bad, mut nontrivial) = (0u64, 0u64, 0u64);
